@@ -5,6 +5,7 @@
    guard drops, Arc handles. [nR], [nU], [nW] count the read / upgradable / write guards alive. *)
 From AL Require Import Base Api Mutex RwLock RwApi RwInv.
 From AL.Tie Require Tie_Mutex Tie_Raw Tie_RwLock Tie_RwFutures.
+From AL.Sched Require RwSched.
 
 Theorem C02_excl_hist : forall ops : list rop,
   N.of_nat (length ops) < OPS_BOUND ->
@@ -22,6 +23,24 @@ Proof. intros ops B x. destruct (run_RInv ops B) as (A & B' & _). split; assumpt
 
 (* non-vacuity: two readers and an upgradable reader alive, a writer waiting for them,
    another writer queued on the inner mutex *)
+(* ---- schedule half: every interleaving of the atomic operations on the state word (the inner mutex taken
+   as an atomic lock, cf. C01_excl_sched), ANY number of threads, no bound on length: at most one writer, at
+   most one upgradable reader, a writer excludes every reader; the word counts what is held ---- *)
+Theorem C02_excl_sched : forall (n : nat) (sched : list (nat * RwSched.raction)),
+  let g := RwSched.rrun_s n sched in
+  RwSched.cnt RwSched.fW (RwSched.rg_thr g) <= 1 /\
+  RwSched.cnt RwSched.fU (RwSched.rg_thr g) + RwSched.cnt RwSched.fA (RwSched.rg_thr g) <= 1 /\
+  (1 <= RwSched.cnt RwSched.fW (RwSched.rg_thr g) ->
+     RwSched.cnt RwSched.fR (RwSched.rg_thr g) = 0 /\ RwSched.cnt RwSched.fU (RwSched.rg_thr g) = 0) /\
+  RwSched.rg_w g = 2 * (RwSched.cnt RwSched.fR (RwSched.rg_thr g) + RwSched.cnt RwSched.fU (RwSched.rg_thr g)) + RwSched.cnt RwSched.fA (RwSched.rg_thr g).
+Proof. exact RwSched.rw_sched_exclusion. Qed.
+
+Example C02_sched_nonvacuous :
+  let g := RwSched.rrun_s 3 [(0, RwSched.RReadCas 0); (1, RwSched.RMutexLock); (1, RwSched.RAnnounce); (2, RwSched.RReadCas 2); (1, RwSched.RObserve);
+                             (0, RwSched.RReadUnlock); (1, RwSched.RObserve); (2, RwSched.RReadCas 1); (1, RwSched.RDowngradeToUp)]%nat in
+  RwSched.rg_w g = 2 /\ RwSched.cnt RwSched.fU (RwSched.rg_thr g) = 1 /\ RwSched.cnt RwSched.fR (RwSched.rg_thr g) = 0.
+Proof. vm_compute. repeat split. Qed.
+
 Example C02_nonvacuous :
   let x := rrun [RTry KRead false; RTry KRead true; RTry KUpRead false; RStart KWrite false; RPoll 0 0;
                  RDowngrade 2; RPoll 0 0; RStart KWrite true; RPoll 1 0] in
@@ -29,4 +48,5 @@ Example C02_nonvacuous :
 Proof. vm_compute. repeat split. Qed.
 
 Print Assumptions C02_excl_hist.
+Print Assumptions C02_excl_sched.
 Print Assumptions C02_state_counts_guards.
